@@ -103,8 +103,11 @@ def search(res, tier, boost=False):
             xa, xb = map(float, e.space_interval)
             ta, tb = map(float, e.time_interval)
             hx = xb - xa
-            kind = rng.choice(['inside', 'end', 'near', 'other', 'node'])
-            if kind == 'inside':
+            kind = rng.choice(['inside', 'end', 'near', 'other', 'node', 'break'])
+            if kind == 'break':
+                # the seam parameter values 0 and L and the break points of the curve (corners), exactly
+                xh = float(rng.choice([0.0, L] + [float(v) for v in gamma.pw_start]))
+            elif kind == 'inside':
                 xh = rng.uniform(xa + 1e-4 * hx + 2e-5, xb - 1e-4 * hx - 2e-5)
             elif kind == 'end':
                 xh = rng.choice([xa, xb])
@@ -156,6 +159,15 @@ def search(res, tier, boost=False):
                 zone, tol = 'near', 2e-3
             worst[zone] = max(worst[zone], err)
             res.count(('pt', cname, mi, repr(e), xh, t, sweep), True)
+            # the operator configured with pw_exact=True evaluates pointwise, too (the same accuracy is required)
+            try:
+                val_x = ops.SL[True].evaluate(e, t, xh, x)
+                err_x = abs(val_x - ref) / max(abs(ref), 1e-9)
+                if err_x > tol and not err > tol:
+                    res.violation('C07:evaluate-inaccurate:%s:pw_exact-operator' % zone, dict(curve=cname, elem=describe(e), t=t, x_hat=xh,
+                                  value=float(val_x), value_default_operator=float(val), reference=ref, rel_error=err_x, tolerance=tol))
+            except AssertionError:
+                pass
             if err > tol:
                 res.violation('C07:evaluate-inaccurate:' + zone, dict(curve=cname, elem=describe(e), t=t, x_hat=xh, value=float(val),
                               reference=ref, rel_error=err, tolerance=tol))
